@@ -101,6 +101,36 @@ class Overlap(State):           # overlapping union: a converting alternative fi
     pair: tuple[int, ...] | Set[int] | Any = ()
 
 
+DEFAULT_TAGS, DEFAULT_FLAGS, DEFAULT_MAP = ["a"], {"x"}, {"k": 1}
+
+
+class Defaulted(State):        # mutable containers declared as defaults
+    name: str = "n"
+    tags: Sequence[str] = DEFAULT_TAGS
+    flags: Set[str] = DEFAULT_FLAGS
+    table: Mapping[str, int] = DEFAULT_MAP
+
+
+def defaulted_attributes():
+    """An attribute left at its declared default holds the same immutable snapshot an explicitly passed value would."""
+    out = []
+    d = Defaulted()
+    e = Defaulted(tags=["a"], flags={"x"}, table={"k": 1})
+    if d != e or e != d or not isinstance(d.tags, tuple) or not isinstance(d.flags, frozenset):
+        out.append(f"an instance left at its declared defaults holds {d.tags!r} / {d.flags!r}, passing the same values explicitly gives "
+                   f"{e.tags!r} / {e.flags!r}")
+    snap = repr(d)
+    if copy.copy(d) != d or d.updated() != d:
+        out.append("copy / updated of an instance left at its defaults is not equal to it")
+    DEFAULT_TAGS.append("b"); DEFAULT_FLAGS.add("y"); DEFAULT_MAP["z"] = 2
+    try:
+        if repr(d) != snap:
+            out.append(f"mutating the container declared as a default changed an existing instance: {snap} -> {d!r}")
+    finally:
+        DEFAULT_TAGS.pop(); DEFAULT_FLAGS.discard("y"); DEFAULT_MAP.pop("z")
+    return out
+
+
 def history_independence():
     """What an instance holds depends on the arguments of *its* construction alone, never on which values other
     instances of the class were built from before (validators keep no history)."""
@@ -169,6 +199,7 @@ def problems():
         out.append("a failed update changed the original")
     out += updated_sweep()
     out += history_independence()
+    out += defaulted_attributes()
     p = Plain(n=2, seq=[1], inner=Inner(x=3))
     for name, f in (("copy", copy.copy), ("deepcopy", copy.deepcopy)):
         try:
